@@ -38,6 +38,16 @@ CLAIMS = {
               "values under one map key are outside the property's quantifier."),
         technique="resolved write-effect coverage with data dependence + dominance of the id gate + predicate-abstraction decision table",
         design_ref="§4 C14"),
+    "C08": dict(
+        category="other",
+        text=("Decides the structural clauses of C08: an exhaustive abstract interpretation of locktime() over the discriminant "
+              "lattice {Unconstrained, Minimum, Disallowed}^2 (all reachable cells, each outcome compared with the BIP370 table, "
+              "height preferred; this also proves the unreachable!() arms dead); the kill set of unique_id (every non-witness TxIn "
+              "field extract_tx fills from a signer/updater-mutable PSET field is reset before txid()); the per-field identity of "
+              "from_txin/from_txout composed with extract_tx and the agreement of to_txout with extract_tx; the 0xffffffff "
+              "exemption at every reader of the index flag bits. Whole-value tx->PSET->tx equality is decided per field flow only."),
+        technique="abstract interpretation over enum discriminants (exhaustive decision table) + field-flow composition of sibling converters",
+        design_ref="§4 C08"),
 }
 
 NOT_YET = "rule set designed in DESIGN.md but not built yet in this round; no claim is made"
